@@ -60,7 +60,7 @@ func genC23(seed int64, tier string, emit func(run.Case)) {
 	r := gen.New(seed*7919 + 23)
 	nd, ne := 360, 24
 	if tier == "thorough" {
-		nd, ne = 14000, 1000
+		nd, ne = 7200, 480
 	}
 	id := 0
 	for _, eng := range []string{"dagre", "elk"} {
